@@ -11,15 +11,15 @@ PROP = dict(
               "Pops.C15_load_clip_region", "Pops.C15_F17_witness", "Pops.C15_load_clip_ideal_fails",
               "Pops.C15_load_symmetric", "Pops.C15_load_merge", "Pops.C15_load_wf",
               "Pops.C15_load_rejects", "Pops.C15_load_rejects_texts", "Pops.C15_load_header",
-              "Pops.Net.walkGHas_eq"],
+              "Pops.Net.walkGHas_eq", "Pops.C15_network_movement_wiring"],
     commands=["net.*"],
     runs={
         # cases 0 and 1 of mode `net` (and every case of mode `witness`) are fixed witnesses of the
         # open finding F17, so its KNOWN-FINDING line is printed on every run
         # mode f17 = mode net with 14% of the end nodes inside the F17 region (0.3% elsewhere), sized so that
         # a chunk never carries more than ~100 KNOWN lines
-        "quick": [("h_net", "net", 0, 500), ("h_net", "malformed", 0, 1500), ("h_net", "f17", 0, 150), ("h_net", "witness", 0, 2)],
-        "thorough": [("h_net", "net", 0, 50000), ("h_net", "malformed", 0, 50000), ("h_net", "f17", 0, 3000), ("h_net", "witness", 0, 2)],
+        "quick": [("h_net", "net", 0, 500), ("h_net", "malformed", 0, 1500), ("h_net", "f17", 0, 150), ("h_net", "witness", 0, 2), ("h_kern", "factory", 0, 600)],
+        "thorough": [("h_net", "net", 0, 50000), ("h_net", "malformed", 0, 50000), ("h_net", "f17", 0, 3000), ("h_net", "witness", 0, 2), ("h_kern", "factory", 0, 6000)],
     },
     exhaustive={"quick": False, "thorough": False},
     exhaustive_note={
